@@ -35,7 +35,7 @@ RULE = ("rank programs on the real code: (a) handler/swapper construction + all 
         "maps and warning sequences compared.  A class is (workload, P, schedule kind | hash-seed sweep).")
 ASSUMPTIONS = ["simulated MPI: matching rules never stricter than the MPI standard (self-tested with planted faults)",
                "hash-seed soundness argument as stated in DESIGN.md section 3/C06", "mpio emulation for the driver workload"]
-REQUIRED_EVENTS = {"worlds_run": 1, "enumerated_programs": 1, "hash_seeds_compared": 1, "empty_block_rank_runs": 1, "schedules_exhausted": 1}
+REQUIRED_EVENTS = {"worlds_run": 1, "enumerated_programs": 1, "hash_seeds_compared": 1, "empty_block_rank_runs": 1, "schedules_exhausted": 1, "tied_route_pairs": 1}
 CASE_TIMEOUT = {"quick": 900, "thorough": 3000}
 
 PHYS = {'flux_surface': [0, 3, 1, 2], 'v_parallel': [0, 2, 1, 3], 'poloidal': [3, 2, 1, 0]}
@@ -405,15 +405,58 @@ def _random(case):
 # ----------------------------------------------------------------------------------------------------------
 # hash-seed sweep
 
-def _tied_layout_set(rng):
-    """layout sets whose connection graph has cycles and many tied shortest routes"""
+def _compatible(nprocs, a, b):
+    return sum(1 for i, n in enumerate(nprocs) if n > 1 and a[i] != b[i]) < 2
+
+
+def _tie_stats(nprocs, layouts):
+    """(connected?, number of ordered pairs with >= 2 distinct shortest routes)"""
+    names = list(layouts)
+    adj = {u: [v for v in names if v != u and _compatible(nprocs, layouts[u], layouts[v])] for u in names}
+    ties = 0
+    for s_ in names:
+        dist = {s_: 0}
+        cnt = {s_: 1}
+        frontier = [s_]
+        while frontier:
+            nxt = []
+            for u in frontier:
+                for v in adj[u]:
+                    if v not in dist:
+                        dist[v] = dist[u] + 1
+                        cnt[v] = cnt[u]
+                        nxt.append(v)
+                    elif dist[v] == dist[u] + 1:
+                        cnt[v] += cnt[u]
+            frontier = nxt
+        if len(dist) < len(names):
+            return False, 0
+        ties += sum(1 for v in names if v != s_ and cnt[v] > 1)
+    return True, ties
+
+
+def _tied_layout_set(rng, nprocs):
+    """connected layout sets (random names, random insertion order) whose connection graph has many tied
+    shortest routes: the situation in which the route search has to break ties deterministically"""
     import itertools
-    nd = rng.choice([3, 4, 4])
+    nd = 4 if len(nprocs) == 3 else rng.choice([3, 4, 4])
     perms = list(itertools.permutations(range(nd)))
-    k = rng.randint(5, 7)
-    names = ["".join(rng.choice("abcdefghijklmnopqrstuvwxyz") for _ in range(rng.randint(3, 7))) for _ in range(k)]
-    chosen = rng.sample(perms, k)
-    return nd, {n: list(p) for n, p in zip(names, chosen)}
+    best = None
+    for _try in range(200):
+        k = min(rng.randint(5, 7), len(perms))
+        names = ["".join(rng.choice("abcdefghijklmnopqrstuvwxyz") for _ in range(rng.randint(3, 7))) for _ in range(k)]
+        if len(set(names)) < k:
+            continue
+        chosen = rng.sample(perms, k)
+        lays = {n: list(p) for n, p in zip(names, chosen)}
+        ok, ties = _tie_stats(nprocs, lays)
+        if ok and (best is None or ties > best[0]):
+            best = (ties, lays)
+            if ties >= 6:
+                break
+    if best is None:
+        return nd, None, 0
+    return nd, best[1], best[0]
 
 
 def hash_worker(spec):
@@ -452,12 +495,16 @@ def hash_worker(spec):
 def _hash(case):
     rng = random.Random(case["seed"])
     P = case["P"]
-    nd, layouts = _tied_layout_set(rng)
-    nprocs = [P] if rng.random() < 0.5 else ([P // 2, 2] if P % 2 == 0 and P > 2 else [P, 1])
-    shape = [rng.randint(max(nprocs), max(nprocs) + 3) for _ in range(nd)]
+    nprocs = rng.choice([[2, 2], [2, 3], [3, 2], [2, 2, 2]])
+    P = int(np.prod(nprocs))
+    nd, layouts, nties = _tied_layout_set(rng, nprocs)
+    if layouts is None:
+        return result(SKIP, what="no connected layout set with ties found")
+    shape = [rng.randint(max(nprocs), max(nprocs) + 2) for _ in range(nd)]
     spec = {"P": P, "nprocs": nprocs, "shape": shape, "layouts": layouts, "sched_seed": case["seed"] % 1000}
     ev = {"worlds_run": 0, "enumerated_programs": 0, "schedules_exhausted": 0, "hash_seeds_compared": 0, "empty_block_rank_runs": 0}
-    what = "hash-seeds/P%d/nd%d/%dlayouts" % (P, nd, len(layouts))
+    what = "hash-seeds/grid%s/nd%d/%dlayouts/%s" % ("x".join(map(str, nprocs)), nd, len(layouts), "tied-routes" if nties else "no-ties")
+    ev_ties = nties
     ref = None
     for hs in range(case["nhash"]):
         env = dict(os.environ)
@@ -493,4 +540,5 @@ def _hash(case):
             return result(VIOL, cls=[what], events=ev, key="C06:hash-seed/%s-differs" % which.replace(" ", "-"),
                           what="per-rank %s under PYTHONHASHSEED=%d differs from PYTHONHASHSEED=0 (layouts %r, nprocs %r): ranks in separate interpreters could pick different routes"
                           % (which, hs, layouts, nprocs), witness={"case": case, "spec": spec, "hashseed": hs})
+    ev["tied_route_pairs"] = ev_ties
     return result(HELD, cls=[what + ("/refused" if ref == "refused" else "")], events=ev, n_eval=case["nhash"])
